@@ -148,7 +148,7 @@ def run(chk):
     if not ok:
         chk.broken.append({"kind": "harness", "name": "agent harness build", "why": out[-1500:]})
         return
-    nhist = (10 if chk.tier == "quick" else 600) + len(SCRIPTS)
+    nhist = int(os.environ.get("VERIF_C09_NHIST") or (10 if chk.tier == "quick" else 600)) + len(SCRIPTS)
     keyno = [0]
     for h in range(nhist):
         script = SCRIPTS[h] if h < len(SCRIPTS) else None
@@ -279,7 +279,7 @@ def run(chk):
                 d = {"plan": {k: (v if k != "status" else {kk: vv for kk, vv in v.items() if kk != "body"}) for k, v in plan.items()},
                      "agent": st, "model": outs[idx][:400]}
                 if want != got:
-                    chk.disagreement("keeper-state", d, want, got)
+                    chk.disagreement("keeper-state", dict(d, step=ci, driver_timeline=kp.trace[-120:]), want, got)
                 if mpol != gpol:
                     chk.disagreement("keeper-policy", d, mpol, gpol)
                 if macq != gacq_ok:
